@@ -24,8 +24,8 @@ pub struct Off {
 pub enum ROp {
     Read(u8, u16),
     Seek(Whence, Off),
-    /// Read::read_to_end from the current position
-    ReadToEnd,
+    /// Read::read_to_end from the current position into a vector that already holds k bytes
+    ReadToEnd(u8),
     /// Read::read_exact with a buffer of the given size class
     ReadExact(u8, u16),
 }
@@ -49,7 +49,7 @@ pub fn rop_strategy() -> impl Strategy<Value = ROp> {
     prop_oneof![
         6 => (any::<u8>(), any::<u16>()).prop_map(|(k, n)| ROp::Read(k, n)),
         5 => (whence_strategy(), off_strategy()).prop_map(|(w, o)| ROp::Seek(w, o)),
-        1 => Just(ROp::ReadToEnd),
+        1 => any::<u8>().prop_map(ROp::ReadToEnd),
         1 => (any::<u8>(), any::<u16>()).prop_map(|(k, n)| ROp::ReadExact(k, n)),
     ]
 }
@@ -173,18 +173,23 @@ pub fn run_read_script(
                     (Err(e), Ok(b)) => return Err(format!("seek({:?}) failed ({}) but is valid (cursor position {})", sf, e, b)),
                 }
             }
-            ROp::ReadToEnd => {
+            ROp::ReadToEnd(prefill) => {
                 let pos = model.position();
-                let mut got = vec![];
+                // the destination may already hold bytes: read_to_end appends and returns the count appended
+                let k = [0usize, 0, 1, 7][(*prefill % 4) as usize];
+                let mut got = vec![0xEEu8; k];
                 let r = handle.read_to_end(&mut got);
-                trace.push(format!("read_to_end at {} -> {:?}", pos, r.as_ref().map_err(|e| e.kind())));
+                trace.push(format!("read_to_end (destination already holds {} bytes) at {} -> {:?}", k, pos, r.as_ref().map_err(|e| e.kind())));
                 let mut expect = vec![];
                 model.read_to_end(&mut expect).unwrap();
                 match r {
                     Err(e) => return Err(format!("read_to_end at position {} failed: {}", pos, e)),
                     Ok(n) => {
-                        if n != got.len() || got != expect {
-                            return Err(format!("read_to_end at position {} of {} returned {} bytes, a cursor returns the remaining {}", pos, len, got.len(), expect.len()));
+                        if got.len() < k || got[..k].iter().any(|b| *b != 0xEE) {
+                            return Err(format!("read_to_end at position {} clobbered the {} bytes already in the destination", pos, k));
+                        }
+                        if n != got.len() - k || got[k..] != expect[..] {
+                            return Err(format!("read_to_end at position {} of {} into a vector holding {} bytes returned {} and appended {} bytes; a cursor appends and returns the remaining {}", pos, len, k, n, got.len() - k, expect.len()));
                         }
                     }
                 }
@@ -350,7 +355,7 @@ pub fn rops_to_json(s: &[ROp]) -> Value {
             .map(|o| match o {
                 ROp::Read(k, n) => json!(["read", k, n]),
                 ROp::Seek(w, o) => json!(["seek", whence_json(w), o.anchor, o.delta]),
-                ROp::ReadToEnd => json!(["read_to_end"]),
+                ROp::ReadToEnd(k) => json!(["read_to_end", k]),
                 ROp::ReadExact(k, n) => json!(["read_exact", k, n]),
             })
             .collect(),
@@ -364,7 +369,7 @@ pub fn rops_from_json(v: &Value) -> Vec<ROp> {
                     let x = x.as_array()?;
                     match x.first()?.as_str()? {
                         "read" => Some(ROp::Read(x.get(1)?.as_u64()? as u8, x.get(2)?.as_u64()? as u16)),
-                        "read_to_end" => Some(ROp::ReadToEnd),
+                        "read_to_end" => Some(ROp::ReadToEnd(x.get(1).and_then(|y| y.as_u64()).unwrap_or(0) as u8)),
                         "read_exact" => Some(ROp::ReadExact(x.get(1)?.as_u64()? as u8, x.get(2)?.as_u64()? as u16)),
                         _ => Some(ROp::Seek(
                             whence_from(x.get(1)?.as_str()?),
